@@ -112,6 +112,10 @@ fn main() {
             umverif::c09::run(&mut rep);
             rep.finish()
         }
+        "C17" => {
+            umverif::c17::run(&mut rep);
+            rep.finish()
+        }
         "C20" => {
             umverif::c20::run(&mut rep);
             rep.finish()
